@@ -36,6 +36,8 @@ type Cluster struct {
 	DBs map[string]*DBConfig
 
 	nextOwner uint64
+	amu       sync.Mutex
+	anomalies []string
 
 	// OpLog, if non-nil, receives every file operation the nodes' writer connections
 	// issue (and state rebuilds): a debugging aid for timing-dependent failures.
@@ -53,7 +55,30 @@ type DBConfig struct {
 
 // New returns an empty cluster rooted at base.
 func New(base string, ttl time.Duration) *Cluster {
-	return &Cluster{Svc: NewLeaseService(ttl), Hist: ref.NewHistory(), Base: base, DBs: map[string]*DBConfig{}, nextOwner: 1000}
+	cl := &Cluster{Svc: NewLeaseService(ttl), Hist: ref.NewHistory(), Base: base, DBs: map[string]*DBConfig{}, nextOwner: 1000}
+	// A node gives its lease back only after it has stopped being primary: once the
+	// service has forgotten the lease any other candidate may hold it.
+	cl.Svc.OnClose = func(node, leaseID string) {
+		cl.amu.Lock()
+		nodes := append([]*CNode(nil), cl.Nodes...)
+		cl.amu.Unlock()
+		for _, n := range nodes {
+			if n.Name == node && n.Up && n.Store != nil && n.Store.IsPrimary() {
+				cl.amu.Lock()
+				cl.anomalies = append(cl.anomalies, fmt.Sprintf("node %s gives lease %s back to the lease service while it still reports itself primary", node, leaseID))
+				cl.amu.Unlock()
+			}
+		}
+	}
+	return cl
+}
+
+// LeaseAnomalies lists the moments at which a node was observed claiming the primary
+// role without holding the lease (see New).
+func (cl *Cluster) LeaseAnomalies() []string {
+	cl.amu.Lock()
+	defer cl.amu.Unlock()
+	return append([]string(nil), cl.anomalies...)
 }
 
 // NodeOpts configure a node.
@@ -104,7 +129,9 @@ func (cl *Cluster) AddNode(name string, o NodeOpts) (*CNode, error) {
 	n := &CNode{Name: name, cl: cl, Opts: o, states: map[string]*dbState{}}
 	n.Leaser = cl.Svc.NewNodeLeaser(name)
 	n.FC = NewFaultClient()
+	cl.amu.Lock()
 	cl.Nodes = append(cl.Nodes, n)
+	cl.amu.Unlock()
 	return n, n.Start()
 }
 
@@ -113,7 +140,9 @@ func (cl *Cluster) AddNodeDir(name, dir string, o NodeOpts) (*CNode, error) {
 	n := &CNode{Name: name, cl: cl, Opts: o, states: map[string]*dbState{}, DirOverride: dir}
 	n.Leaser = cl.Svc.NewNodeLeaser(name)
 	n.FC = NewFaultClient()
+	cl.amu.Lock()
 	cl.Nodes = append(cl.Nodes, n)
+	cl.amu.Unlock()
 	return n, n.Start()
 }
 
@@ -122,7 +151,9 @@ func (cl *Cluster) RemoveNode(n *CNode) {
 	n.Stop()
 	for i, x := range cl.Nodes {
 		if x == n {
-			cl.Nodes = append(cl.Nodes[:i], cl.Nodes[i+1:]...)
+			cl.amu.Lock()
+			cl.Nodes = append(append([]*CNode(nil), cl.Nodes[:i]...), cl.Nodes[i+1:]...)
+			cl.amu.Unlock()
 			break
 		}
 	}
